@@ -1305,9 +1305,11 @@ fn generate(ctx: &Ctx) {
   let mut lens: Vec<usize> = (0..=40).collect();
   lens.extend(MIN / 8..=MIN / 8 + 8);
   lens.push(MIN / 4);
+  // incompressible lists whose gzip form is larger than any buffer of the codec (64 KiB, 128 KiB; up to 4 MiB in thorough)
+  lens.extend([1 << 16, (1 << 16) + 1, 1 << 17]);
   if ctx.thorough() {
     lens.extend(41..=300);
-    lens.extend([1 << 17, (1 << 17) + 1, (1 << 17) + 2]);
+    lens.extend([(1 << 17) + 1, (1 << 17) + 2, 1 << 18, 1 << 20, (1 << 20) + 1, 1 << 22]);
   }
   for bytes in lens {
     for fill in 0..ctx.by_tier(3u8, 6) {
